@@ -236,6 +236,12 @@ func rulePrecOrder(c *Ctx, r *Report, rule string, spec *langSpec) {
 					okCA = true
 				}
 			}
+			// the same comparison with the constant written first
+			if k, isC := c.intConst(be.X); isC && c.isObj(be.Y, param) {
+				if (be.Op == token.GEQ && k == exprLvl) || (be.Op == token.GTR && k == exprLvl+1) {
+					okCA = true
+				}
+			}
 			return true
 		})
 	}
@@ -604,13 +610,27 @@ func (c *Ctx) dynTypeCase(dyn string, dt types.Type) (func(in *Interp, st *State
 func (c *Ctx) encodeStores(enc *ast.FuncDecl, dyn string, dt types.Type) (paths [][]string, undecided []string) {
 	var h Hooks
 	h.TypeCase, h.DecideV = c.dynTypeCase(dyn, dt)
-	h.Inline = func(fn *types.Func) bool { return false }
+	// helpers the encoder was split into (one per type, the bool payload): followed when they are not functions of
+	// the reference tree (those keep their meaning: varintToBytes, uvarintToBytes ...)
+	h.Inline = func(fn *types.Func) bool {
+		return fn.Pkg() != nil && fn.Pkg().Path() == bclPath && !c.isReferenceFunc(fn)
+	}
 	pObj := c.paramObj(enc, 0)
 	type storePay struct{ stores []string }
 	h.Store = func(in *Interp, st *State, lhs ast.Expr, op token.Token, v Value) bool {
 		ix, ok := lhs.(*ast.IndexExpr)
-		if !ok || !c.isObj(ix.X, pObj) || op != token.ASSIGN {
+		if !ok || op != token.ASSIGN {
 			return false
+		}
+		if !c.isObj(ix.X, pObj) {
+			// the buffer handed on to a helper under another name
+			id, isID := stripParens(ix.X).(*ast.Ident)
+			if !isID {
+				return false
+			}
+			if bv, has := st.Env[c.objOf(id)]; !has || bv.K != vTag || bv.Tag != "encbuf" {
+				return false
+			}
 		}
 		k, isK := c.intConst(ix.Index)
 		if !isK {
@@ -626,7 +646,7 @@ func (c *Ctx) encodeStores(enc *ast.FuncDecl, dyn string, dt types.Type) (paths 
 	}
 	in := newInterp(c, h)
 	st := &State{Env: map[types.Object]Value{}, P: &strsPay{}}
-	res := in.inlineBody(st, enc.Type, enc.Body, enc.Recv, []Value{unknownV(), tagV("val", dyn)})
+	res := in.inlineBody(st, enc.Type, enc.Body, enc.Recv, []Value{tagV("encbuf", ""), tagV("val", dyn)})
 	for _, vs := range res {
 		paths = append(paths, vs.st.P.(*strsPay).items)
 	}
@@ -983,6 +1003,12 @@ func ruleArithMap(c *Ctx, r *Report, rule string) {
 			nh++
 			okc := len(call.Args) >= 2 && c.isObj(call.Args[0], c.paramObj(fd, 0))
 			for i := 1; i < len(call.Args) && okc; i++ {
+				if i == 2 {
+					// the zero a non-numeric right operand is taken as (the reference's `var cb float64` left unset)
+					if k := c.constOf(call.Args[i]); k != nil && constant.Sign(k) == 0 {
+						continue
+					}
+				}
 				if i > 2 || sideOf(call.Args[i]) != []string{"a", "b"}[i-1] {
 					okc = false
 				}
@@ -1101,7 +1127,11 @@ func ruleCoercion(c *Ctx, r *Report, rule string) {
 		got := ""
 		for i, v := range vals {
 			got = v
-			if v != cl.want || deltas[i] != "-1" {
+			same := v == cl.want
+			if cl.want == "-" && v == "tos-2=stk(-2)" {
+				same = true // the left operand written back into its own cell: the string is left as it is
+			}
+			if !same || deltas[i] != "-1" {
 				ok = false
 			}
 		}
